@@ -72,8 +72,10 @@ struct Extractor {
     O["ct"] = CT.getAsString();
     if (CT->isBooleanType())
       O["tk"] = "bool";
-    else if (CT->isEnumeralType())
+    else if (CT->isEnumeralType()) {
       O["tk"] = "enum";
+      O["signed"] = CT->isSignedIntegerOrEnumerationType();
+    }
     else if (CT->isIntegerType()) {
       O["tk"] = "int";
       O["signed"] = CT->isSignedIntegerType();
